@@ -120,6 +120,25 @@ def stepC03 : List String → String
   | "blkc" :: _ => "nopanic"
   | "cfm" :: _ => "nopanic"
   | "dpb" :: _ => "nopanic"
+  | ["nta", cr, dp, next] =>
+      let ids (x : String) : Option (List Nat) := if x == "-" then some [] else (x.splitOn ",").mapM nat?
+      let arbs (x : String) : Option (List ElaVerif.CoinbaseTotal.NextArb) :=
+        if x == "-" then some [] else (x.splitOn ";").mapM (fun e => match e.splitOn ":" with
+          | [a, b, c] => (nat? a).map (fun i => ⟨i, b == "1", c == "1"⟩)
+          | _ => none)
+      (match ids cr, ids dp, arbs next with
+        | some c, some d, some n => fmtB (ElaVerif.CoinbaseTotal.nextSame true c d n)
+        | _, _, _ => "bad-op")
+  | ["ntv", cr, dp, next, crc] =>
+      let ids (x : String) : Option (List Nat) := if x == "-" then some [] else (x.splitOn ",").mapM nat?
+      let prs (x : String) : Option (List (Nat × Bool)) :=
+        if x == "-" then some [] else (x.splitOn ";").mapM (fun e => match e.splitOn ":" with
+          | [a, b] => (nat? a).map (fun i => (i, b == "1"))
+          | _ => none)
+      (match ids cr, ids dp, prs next, prs crc with
+        | some c, some d, some n, some k => fmtB (ElaVerif.CoinbaseTotal.nextSameV1 true c d n k)
+        | _, _, _, _ => "bad-op")
+  | ["pgen", _] => "rejected"
   | ["tcc", nOut, idx] => match nat? nOut, nat? idx with
       | some n, some i => (match ElaVerif.CoinbaseTotal.crossChainIndex true n i with
           | .val true => "err index" | .val false => "later" | .panic => "panic")
